@@ -94,8 +94,11 @@ func LossLessSwap(input sdkmath.Int, ratio sdkmath.LegacyDec, inputScale, output
 	// Adjust input if there are decimal places in the output
 	if !outputDec.Equal(outputInt) {
 		outputFrac := outputDec.Clone().Sub(outputInt)
-		inputFrac := outputFrac.Mul(scaleReverseMultipler)
-		input = inputDec.Sub(inputFrac).TruncateInt()
+		// undo the whole conversion (scale and ratio) for the part of the output that
+		// was dropped, and round the remaining input up, so that what is minted is
+		// never worth more than what is burned
+		inputFrac := outputFrac.Mul(scaleReverseMultipler).QuoTruncate(ratio)
+		input = inputDec.Sub(inputFrac).Ceil().TruncateInt()
 	}
 
 	return input, outputInt.TruncateInt()
